@@ -45,6 +45,22 @@ CLAIMED["C09"] = dict(
     technique="Lean 4 linearizability theorem (inductive invariant over all schedules) + regenerated lock-dominance facts + differential correspondence",
     ref="DESIGN.md §6 C09")
 
+CLAIMED["C03"] = dict(
+    text="Lean theorems over ALL histories of (API call | dispatch step at an arbitrary clock reading) of the scheduler model: a dispatched entry is the popped minimum, not suspended, with fire time <= now and >= now - threshold (C03_never_early, C03_dispatch_is_popped_min); there is an injection from dispatches to EARLIER calls of the job's own trigger that returned exactly that fire time (C03_own_trigger_once => own fire time, at most once). Steps at arbitrary times cover spurious/stale wake-ups and foreign queue changes. Tie: validateJob/fetchAndReschedule facts pinned by decide (operators, operands, trigger argument per branch, order lock-pop-classify-next-push-reset); every real dispatch step (released one at a time through a gated JobQueue) compared exactly with the model; concurrent stress runs (3 modes x 1-3 schedulers sharing queue+lock x both timer-channel semantics) judged for early/duplicate/unowned executions.",
+    note="real-time jitter: fire times placed >= 10 min from classification boundaries; concurrency of the real loop is observed (stress), the theorems are about the model's atomic steps, atomicity = lock facts of C09",
+    technique="Lean 4 invariant proofs over all histories + regenerated facts + step-by-step differential (gated queue) + concurrent conformance",
+    ref="DESIGN.md §6 C03/C04/C08")
+CLAIMED["C04"] = dict(
+    text="Lean theorems: every popped active fire time is exactly one of executed (next computed from the scheduled time), misfired (iff now - f > threshold; offered; re-based on now) or not due (re-pushed unchanged) with registry accounting as multisets (C04_accounted, C04_misfire_iff_late); trigger reports no further fire time => job leaves the registry, still dispatched if it was on time (C04_leaves_registry); no drift for interval triggers regardless of the actual clock readings (C04_no_drift); a run-once job is dispatched exactly once and then absent (C04_run_once), hypotheses shown reachable. Tie as C03; the harness additionally checks that the trigger received the scheduled time (valid) or the current time (outdated, ScheduleJob, ResumeJob) by bracketing the call with clock readings.",
+    note="as C03",
+    technique="Lean 4 case-exhaustive step theorem + history invariants + regenerated facts + step-by-step differential",
+    ref="DESIGN.md §6 C03/C04/C08")
+CLAIMED["C08"] = dict(
+    text="Lean theorems: a successful pause keeps the entry listed, suspended, parked at MaxInt64 with the same trigger state (C08_pause_effect); for every continuation not touching the key no trigger call, dispatch or misfire of that job occurs and it stays listed as paused (C08_paused_no_consumption[_reachable]); after delete/clear the job is never popped again (C08_delete_effect, C08_clear_effect); resume re-activates with the trigger's answer to the clock reading of the resumption (C08_resume_from_now). Tie as C03 plus concurrent pause/resume/delete storms judged against the return times of the API calls.",
+    note="'already dequeued' = the loop step happened before the API call acquired the queue lock (lock facts of C09)",
+    technique="Lean 4 invariant proofs over all continuations + regenerated facts + differential + concurrent conformance",
+    ref="DESIGN.md §6 C03/C04/C08")
+
 REASON_PENDING = "check not built yet (build phase in progress); planned per DESIGN.md §6"
 
 m = {
